@@ -363,7 +363,9 @@ def parent(args):
                 regress += 1
                 for s, m in r.fails:
                     if any(k["status"] == "open" and
-                           re.search(k["sig_regex"], s) for k in known):
+                           k.get("generated_sig_regex") and
+                           re.search(k["generated_sig_regex"], s)
+                           for k in known):
                         continue
                     violations.append({"sub": s, "msg": m,
                                        "case": rep["case"],
@@ -442,7 +444,8 @@ def parent(args):
     n_known_hits = 0
     for sig, f in merged["failures"].items():
         kf = [k for k in known if k["status"] == "open"
-              and re.search(k["sig_regex"], sig)]
+              and k.get("generated_sig_regex")
+              and re.search(k["generated_sig_regex"], sig)]
         if kf:
             n_known_hits += f["count"]
             continue
